@@ -13,6 +13,7 @@ Tie:
   '/'-started run of characters with an existing prefix under the input /
   output / scratch roots, the repository, the interpreter and site-packages.
 """
+import contextlib
 import copy
 import gc
 import json
@@ -644,7 +645,7 @@ FAILURES = ['success', 'missing_query', 'missing_stats', 'missing_markers',
             'bad_taxonomy', 'no_marker_overlap', 'unknown_reference_marker',
             'negative_raw', 'duplicate_cells', 'duplicate_genes',
             'corrupt_query', 'corrupt_stats', 'corrupt_markers',
-            'query_is_dir', 'csc_query']
+            'query_is_dir', 'csc_query', 'worker_raise', 'worker_exit']
 
 
 def build_case(rng, wd, failure, awkward=True):
@@ -658,6 +659,9 @@ def build_case(rng, wd, failure, awkward=True):
     for d in (d_in, d_out, d_tmp, d_mk):
         d.mkdir(parents=True, exist_ok=True)
     mp = pipeline.MappingProblem(rng, max_depth=3)
+    if failure.startswith('worker_'):
+        mp = pipeline.MappingProblem(rng, max_depth=3,
+                                     n_cells=rng.randint(5, 12))
     encoding = 'csc' if failure == 'csc_query' else rng.choice(
         ['dense', 'csr'])
     if failure == 'negative_raw':
@@ -796,13 +800,50 @@ def leak_class(leak, cfg, desc, wd):
     return 'installation'
 
 
+@contextlib.contextmanager
+def injected_worker_failure(rng, failure, cfg):
+    """C14-style worker failure for the mapping stage: the worker of one
+    chunk raises / exits (the patch is inherited by the forked workers;
+    their stderr is silenced)"""
+    if not failure.startswith('worker_'):
+        yield
+        return
+    from cell_type_mapper.type_assignment import election
+    orig = election._run_type_assignment_on_h5ad_worker
+    cfg['type_assignment']['chunk_size'] = 2
+    cfg['type_assignment']['n_processors'] = 2
+    r0 = 2 * rng.randrange(0, 2)
+    mode = failure.split('_')[1]
+
+    def wrapper(*args, **kwargs):
+        if kwargs.get('r0') == r0:
+            if mode == 'exit':
+                os._exit(3)
+            raise RuntimeError('injected worker failure in %s'
+                               % cfg['query_path'])
+        orig(*args, **kwargs)
+
+    election._run_type_assignment_on_h5ad_worker = wrapper
+    sys.stderr.flush()
+    saved = os.dup(2)
+    devnull = os.open(os.devnull, os.O_WRONLY)
+    os.dup2(devnull, 2)
+    try:
+        yield
+    finally:
+        election._run_type_assignment_on_h5ad_worker = orig
+        os.dup2(saved, 2)
+        os.close(saved)
+        os.close(devnull)
+
+
 def check_run(ctx, rng, failure, awkward=True, cloud_safe=None):
     with pipeline.workdir('ctmverif_c20p_') as wd:
         cfg, desc = build_case(rng, wd, failure, awkward)
         roots = sensitive_roots(wd)
         if cloud_safe is not None:
             cfg['cloud_safe'] = cloud_safe
-        with pipeline.quiet():
+        with pipeline.quiet(), injected_worker_failure(rng, failure, cfg):
             run = pipeline.run_mapping(cfg)
             # the exception keeps the FileTracker alive through its
             # traceback; drop it here so that __del__ prints inside quiet()
@@ -897,11 +938,10 @@ def run(ctx):
     for f in sorted(cdir.glob('*.json')) if cdir.is_dir() else []:
         replay(ctx, json.loads(f.read_text()), from_corpus=True)
     if ctx.tier == 'quick':
-        run_unit(ctx, n_layouts=8, n_per_layout=150)
-        fails = ["success"] + rng.sample(FAILURES[1:], 11)
-        runs = [(f, True) for f in fails] + [('success', False)]
+        run_unit(ctx, n_layouts=12, n_per_layout=250)
+        runs = [(f, True) for f in FAILURES] + [('success', False)]
     else:
-        run_unit(ctx, n_layouts=40, n_per_layout=300)
+        run_unit(ctx, n_layouts=60, n_per_layout=400)
         runs = [(f, True) for f in FAILURES for _ in range(6)] + \
                [(f, False) for f in FAILURES for _ in range(2)]
     for failure, awkward in runs:
